@@ -4,6 +4,7 @@ import (
 	"fmt"
 	"go/token"
 	"go/types"
+	"os"
 	"strings"
 
 	"golang.org/x/tools/go/ssa"
@@ -27,7 +28,7 @@ func C20(c *Ctx) {
 		"(A12) pagination-callback idiom on go/ssa CFGs: in every closure passed to query.FilteredPaginate the append to the result is guarded by `accumulate`, no non-error return is control- or data-dependent on `accumulate` (so counting pages and collecting pages see the same hits), the appended element is the decoded `value`, and every `false` return is guarded by a predicate over the request; " +
 		"for GenericFilteredPaginate callbacks a nil result is returned only under a request-dependent filter and the returned item carries the decoded value; " +
 		"(A7) every store section is encoded and decoded with one single Go type across all writers, getters, iterators and paginated queries, and the prefix store handed to a paginator is the section its callback decodes. Structural necessary conditions; SDK paginator correctness is trusted."
-	r.Rules = []string{"A1.query-readonly", "A12.accumulate-guard", "A12.hit-independent-of-accumulate", "A12.element", "A12.item-identity", "A12.filter-only-drop", "A7.section-type"}
+	r.Rules = []string{"A1.query-readonly", "A12.accumulate-guard", "A12.hit-independent-of-accumulate", "A12.element", "A12.item-identity", "A12.filter-only-drop", "A12.filter-complete", "A7.section-type"}
 	r.Trusted = []string{"cosmos-sdk types/query FilteredPaginate / GenericFilteredPaginate semantics", "codec (Must)Unmarshal decodes what (Must)Marshal encoded for the same type"}
 	r.NotDecided = []string{"cross-page completeness as behaviour", "bank keeper pagination used by TotalSupply"}
 
@@ -52,7 +53,7 @@ func C20(c *Ctx) {
 	r.Control("A1.query-readonly", "fixtures/c20", fixtureReach(c, "QueryWrites", isMutation) > 0)
 
 	// A12: pagination callbacks
-	nFP, nGFP := 0, 0
+	nFP, nGFP, nFilt := 0, 0, 0
 	for _, f := range w.Funcs {
 		if w.IsGenerated(f) || ir.IsFixture(f) && !strings.Contains(fn(f), "fixtures/c20") {
 			continue
@@ -82,6 +83,9 @@ func C20(c *Ctx) {
 						nFP++
 					}
 					filteredPaginateCallback(c, f, call, cb)
+					if !ir.IsFixture(f) {
+						nFilt += filterComplete(c, call, call.Common().Args[2], 0, false)
+					}
 				case "GenericFilteredPaginate":
 					cb := closureArg(call.Common().Args[3])
 					if cb == nil {
@@ -92,12 +96,16 @@ func C20(c *Ctx) {
 						nGFP++
 					}
 					genericPaginateCallback(c, f, call, cb)
+					if !ir.IsFixture(f) {
+						nFilt += filterComplete(c, call, call.Common().Args[3], 1, true)
+					}
 				}
 			}
 		}
 	}
 	r.Floor("FilteredPaginate call sites", nFP, 3)
 	r.Floor("GenericFilteredPaginate call sites", nGFP, 3)
+	r.Floor("request filter fields judged on the hits of paginated queries", nFilt, 8)
 	ctl := 0
 	for _, o := range r.Obls {
 		if strings.Contains(o.Key, "fixtures/c20") && o.Status == "violated" {
@@ -713,4 +721,155 @@ func iterSection(c *Ctx, it *ir.Expr) string {
 		return true
 	})
 	return sec
+}
+
+// filterComplete is rule A12.filter-complete, the "and nothing else" half of a filtered list: for every filter field F of
+// the request (each field other than Pagination), every way the paginator's callback can report a hit lies behind a test
+// that either shows F was not requested (the request field alone compared with a constant / an empty length) or shows the
+// item agrees with F (an equality between something decoded from the item or its key and something derived from req.F) —
+// or the paginated store is itself the prefix store selected by F. Decided by cut-reachability on the callback's flat view,
+// with its captured variables bound to the values they were given where the callback is created (a filter value prepared
+// once per request in a struct is followed into the helper that applies it). storeIdx: the store argument of the call.
+func filterComplete(c *Ctx, site *ssa.Call, cbv ssa.Value, storeIdx int, generic bool) int {
+	w, r := c.W, c.R
+	for {
+		if ct, ok := cbv.(*ssa.ChangeType); ok {
+			cbv = ct.X
+			continue
+		}
+		break
+	}
+	mc, ok := cbv.(*ssa.MakeClosure)
+	if !ok {
+		return 0
+	}
+	cb := mc.Fn.(*ssa.Function)
+	// the request: a parameter of the function the callback is written in, pointing to a struct with a Pagination field
+	var req *ssa.Parameter
+	var rst *types.Struct
+	for p := cb.Parent(); p != nil && req == nil; p = p.Parent() {
+		for _, pr := range p.Params {
+			st, ok := ptrElem(pr.Type()).Underlying().(*types.Struct)
+			if !ok {
+				continue
+			}
+			for i := 0; i < st.NumFields(); i++ {
+				if st.Field(i).Name() == "Pagination" {
+					req, rst = pr, st
+				}
+			}
+		}
+	}
+	if req == nil {
+		return 0
+	}
+	root := w.FlatRootClosure(mc)
+	itemNames := map[string]bool{}
+	for i, p := range cb.Params {
+		if i < 2 {
+			itemNames[p.Name()] = true
+		}
+	}
+	mentionsItem := func(e *ir.Expr) bool {
+		return e.Any(func(x *ir.Expr) bool { return x.Op == "decode" || x.Op == "param" && itemNames[x.Name] })
+	}
+	n := 0
+	for fi := 0; fi < rst.NumFields(); fi++ {
+		F := rst.Field(fi).Name()
+		if F == "Pagination" || strings.HasPrefix(F, "XXX_") {
+			continue
+		}
+		isReq := func(x *ir.Expr) bool { return x.Op == "param" && x.Name == req.Name() }
+		mentionsF := func(e *ir.Expr) bool {
+			return e.Any(func(x *ir.Expr) bool {
+				if x.Op == "field" && x.Name == F && len(x.Args) == 1 && isReq(x.Args[0]) {
+					return true
+				}
+				return (x.Op == "call" || x.Op == "invoke") && strings.HasSuffix(x.Name, ").Get"+F) && len(x.Args) >= 1 && isReq(x.Args[0])
+			})
+		}
+		pureF := func(e *ir.Expr) bool { return mentionsF(e) && !mentionsItem(e) }
+		isConst := func(e *ir.Expr) bool { return e.Op == "const" || e.Op == "zero" }
+		m := func(p ir.Pred) bool {
+			if op, x, y, ok := p.Cmp(); ok {
+				x, y = w.Expand(x, 3), w.Expand(y, 3)
+				switch op {
+				case "==":
+					if pureF(x) && isConst(y) || pureF(y) && isConst(x) {
+						return true // the filter is switched off (or fixed) by the request alone
+					}
+					if mentionsItem(x) && pureF(y) || mentionsItem(y) && pureF(x) {
+						return true // the item agrees with the requested value
+					}
+				case "<=", "<":
+					if pureF(x) && isConst(y) {
+						return true // len(req.F) <= 0
+					}
+				case ">=", ">":
+					if pureF(y) && isConst(x) {
+						return true
+					}
+				}
+				return false
+			}
+			if !p.Pol {
+				return false
+			}
+			e := w.Expand(p.E, 3)
+			if e.Op != "call" && e.Op != "invoke" {
+				return false
+			}
+			short := e.Name[strings.LastIndex(e.Name, ".")+1:]
+			if short != "EqualFold" && short != "Equal" && short != "Equals" {
+				return false
+			}
+			item, reqf := false, false
+			for _, a := range e.Args {
+				if mentionsItem(a) {
+					item = true
+				} else if mentionsF(a) {
+					reqf = true
+				}
+			}
+			return item && reqf
+		}
+		key := fn(cb) + "|" + F
+		n++
+		if site.Parent() == cb.Parent() {
+			se := w.Expand(w.ResolveCaptured(w.Expand(w.ExprOf(site.Common().Args[storeIdx]), 3)), 2)
+			if os.Getenv("MCDEBUG") == "filt" {
+				fmt.Fprintln(os.Stderr, "filt store", key, se.String())
+			}
+			if mentionsF(se) {
+				r.OK("A12.filter-complete", key, pos(c, site), "the paginated store is the prefix store selected by req."+F)
+				continue
+			}
+		}
+		hits := 0
+		for _, a := range altsOfRoot(c, root, 0, nil, nil) {
+			rt, isRet := a.Pos.In.(*ssa.Return)
+			if !isRet {
+				continue
+			}
+			if len(rt.Results) == 2 && w.ProvablyNonNil(a.Pos.Ctx.Fn, rt, rt.Results[1]) {
+				continue
+			}
+			if cst, ok := a.V.(*ssa.Const); ok && (cst.Value == nil || cst.Value.String() == "false") {
+				continue // not a hit
+			}
+			hits++
+			at := a
+			okc := w.FlatReaches(root, nil, &ir.FlatCut{Matcher: m, Depth: 2}, func(p ir.FPos) bool { return p.Ctx == at.Pos.Ctx && p.In == at.Pos.In }) == nil
+			if !okc && !generic {
+				if _, isConst := a.V.(*ssa.Const); !isConst {
+					okc = w.HoldsIn(a.Pos.Ctx, a.V, true, m, 2)
+				}
+			}
+			r.Require(okc, "A12.filter-complete", fmt.Sprintf("%s|hit%d", key, hits), pos(c, a.Pos.In),
+				"an item is reported as a hit only behind a test showing that req."+F+" was not requested or that the item agrees with it (a list returns the matching items and nothing else)",
+				"a hit ("+a.E.String()+") is reachable without any such test for "+F)
+		}
+		r.Require(hits > 0, "A12.filter-complete", key+"|hits", w.Pos(cb.Pos()), "the callback has a way to report a hit", "none found")
+	}
+	return n
 }
